@@ -86,6 +86,8 @@ def call(interp, fr, st, pc, path, fn, r, args, t):
     if h is None:
         h = _int_dispatch(path)
     if h is None:
+        h = _prim_ops_dispatch(path)
+    if h is None:
         for pref, hh in PREFIX:
             if path.startswith(pref):
                 h = hh
@@ -220,17 +222,27 @@ def wrapping_sub(i, fr, st, pc, a, t, fn, r):
     return _ret(i, st, pc, w_sub(a[0], a[1])[0])
 
 
+def _sym_select(i, x, y, pick_y_when_x_lt_y):
+    c = i.sym_compare("Lt", x, y)
+    cb = c.bits[0] if c.val is None else (ONE if c.val else ZERO)
+    if cb is None:
+        raise Undecided("symbolic min/max beyond the support bound")
+    if pick_y_when_x_lt_y:
+        return W(x.width, bits=[B.bite(cb, yy, xx) for xx, yy in zip(x.all_bits(), y.all_bits())], signed=x.signed)
+    return W(x.width, bits=[B.bite(cb, xx, yy) for xx, yy in zip(x.all_bits(), y.all_bits())], signed=x.signed)
+
+
 def cmp_min(i, fr, st, pc, a, t, fn, r):
     x, y = a
     if x.val is None or y.val is None:
-        raise Undecided("symbolic min")
+        return _ret(i, st, pc, _sym_select(i, x, y, False))
     return _ret(i, st, pc, x if x.val <= y.val else y)
 
 
 def cmp_max(i, fr, st, pc, a, t, fn, r):
     x, y = a
     if x.val is None or y.val is None:
-        raise Undecided("symbolic max")
+        return _ret(i, st, pc, _sym_select(i, x, y, True))
     return _ret(i, st, pc, y if y.val >= x.val else x)
 
 
@@ -632,12 +644,17 @@ def str_iter_pred(i, fr, st, pc, a, t, fn, r):
     pos = ""
     if isinstance(src, Ptr):
         src = i.read_ptr(st, src)
+    sv = None
     if isinstance(src, Opaque) and src.kind == "str_iter":
         sv = src.data[0]
         if isinstance(sv, Ptr):
             sv = i.read_ptr(st, sv)
-        if isinstance(sv, Opaque) and len(sv.data) > 2:
-            pos = "@%d" % sv.data[2][1]
+    elif isinstance(src, Opaque) and src.kind == "str":
+        sv = src
+    if isinstance(sv, Opaque) and sv.kind == "str":
+        start = sv.data[2][1] if len(sv.data) > 2 else 0
+        ln = sv.data[1].val if len(sv.data) > 1 and isinstance(sv.data[1], W) and sv.data[1].val is not None else None
+        pos = "@%d+%s" % (start, ln if ln is not None else "?")
     clos = a[1] if len(a) > 1 else None
     if isinstance(clos, Agg) and clos.kind == "closure":
         body = i.facts.body(clos.key)
@@ -645,7 +662,11 @@ def str_iter_pred(i, fr, st, pc, a, t, fn, r):
             calls = [blk["term"]["func"].get("path", "") for blk in body["mir"]["blocks"] if blk["term"]["k"] == "call" and "indirect" not in blk["term"]["func"]]
             if len(calls) == 1 and ("is_ascii_hexdigit" in calls[0] or calls[0].endswith("::is_digit") or calls[0].endswith("::to_digit")):
                 tag = "hexdigit-%s" % fn["name"]
-    return _ret(i, st, pc, W(1, bits=[B.atom("strpred%s:%s" % (pos or k, tag))]))
+    if fn["name"] in ("starts_with", "strip_prefix"):
+        tag = "prefix"
+    if fn["name"] in ("ends_with", "strip_suffix"):
+        tag = "suffix"
+    return _ret(i, st, pc, W(1, bits=[B.atom("strpred%s:%s#%d" % (pos or "@?+?", tag, k))]))
 
 
 def call_closure(i, fr, st, pc, clos, args):
@@ -885,6 +906,9 @@ TABLE = {
     "core::str::<impl str>::len": str_len,
     "core::str::traits::<impl std::ops::Index<I> for str>::index": str_index_range,
     "core::num::<impl u64>::from_str_radix": from_str_radix,
+    "core::str::<impl str>::starts_with": str_iter_pred,
+    "core::str::<impl str>::ends_with": str_iter_pred,
+    "core::str::<impl str>::contains": str_iter_pred,
     "core::str::<impl str>::bytes": str_bytes,
     "core::str::<impl str>::chars": str_bytes,
     "core::str::<impl str>::as_bytes": str_bytes,
@@ -1531,6 +1555,519 @@ TABLE.update({
     "<std::iter::Filter<I, P> as std::iter::Iterator>::next": multi_next,
     "<std::iter::Map<I, F> as std::iter::Iterator>::next": multi_next,
 })
+
+
+# ---------------------------------------------------------------------------------- more of std (breadth: so that
+# rewrites using other idioms stay analysable instead of UNDECIDED)
+_OPS_RE = _re.compile(r"^<(&)?(u8|u16|u32|u64|u128|usize|bool) as std::ops::(BitAnd|BitOr|BitXor|Shl|Shr|Add|Sub|Not|Mul)(Assign)?(?:<(&)?(\w+)>)?>::(\w+)$")
+
+
+def _prim_ops_dispatch(path):
+    m = _OPS_RE.match(path)
+    if not m:
+        return None
+    lref, _, op, assign, rref, _, _ = m.groups()
+
+    def h(i, fr, st, pc, a, t, fn, r):
+        if op == "Not":
+            x = i.read_ptr(st, a[0]) if isinstance(a[0], Ptr) else a[0]
+            return _ret(i, st, pc, b_not(x))
+        y = i.read_ptr(st, a[1]) if isinstance(a[1], Ptr) else a[1]
+        if assign:
+            cur = i.read_ptr(st, a[0])
+            i.write_ptr(st, a[0], i.binop(op, cur, y, fr))
+            return _ret(i, st, pc, UNIT)
+        x = i.read_ptr(st, a[0]) if isinstance(a[0], Ptr) else a[0]
+        return _ret(i, st, pc, i.binop(op, x, y, fr))
+    return h
+
+
+def it_copied(i, fr, st, pc, a, t, fn, r):
+    return _ret(i, st, pc, Opaque("copied", (a[0],)))
+
+
+def it_sum_count(kind):
+    def f(i, fr, st, pc, a, t, fn, r):
+        it = a[0]
+        from .absint import w_add
+        acc = None
+        n = 0
+        while True:
+            it, x = iter_next(i, st, it)
+            if x is None:
+                break
+            x = load_items(i, st, x)
+            n += 1
+            if kind == "sum":
+                if not isinstance(x, W):
+                    raise Undecided("sum of non-integers")
+                acc = x if acc is None else w_add(acc, x)[0]
+        if kind == "count":
+            return _ret(i, st, pc, usize(n))
+        return _ret(i, st, pc, acc if acc is not None else usize(0))
+    return f
+
+
+def slice_contains(i, fr, st, pc, a, t, fn, r):
+    elems = _seq_values(i, st, a[0])
+    x = i.read_ptr(st, a[1]) if isinstance(a[1], Ptr) else a[1]
+    acc = wbool(False)
+    for e in elems:
+        if isinstance(e, W) and isinstance(x, W):
+            eq = w_eq(e, x)
+        elif isinstance(e, Agg) and isinstance(x, Agg) and not e.fields and not x.fields:
+            eq = wbool(e.variant == x.variant and e.key == x.key)
+        else:
+            raise Undecided("contains on %r" % (e,))
+        acc = b_not(b_and(b_not(acc), b_not(eq)))
+    return _ret(i, st, pc, acc)
+
+
+def vec_with_capacity(i, fr, st, pc, a, t, fn, r):
+    return vec_new(i, fr, st, pc, a, t, fn, r)
+
+
+def vec_extend_from_slice(i, fr, st, pc, a, t, fn, r):
+    h = i.read_ptr(st, a[0])
+    _vec_set(i, st, a[0], list(i.slice_elems(st, h)) + list(_seq_values(i, st, a[1])))
+    return _ret(i, st, pc, UNIT)
+
+
+def vec_pop(i, fr, st, pc, a, t, fn, r):
+    h = i.read_ptr(st, a[0])
+    el = list(i.slice_elems(st, h))
+    if not el:
+        return _ret(i, st, pc, NONE)
+    _vec_set(i, st, a[0], el[:-1])
+    return _ret(i, st, pc, some(el[-1]))
+
+
+def vec_clear(i, fr, st, pc, a, t, fn, r):
+    _vec_set(i, st, a[0], [])
+    return _ret(i, st, pc, UNIT)
+
+
+def vec_truncate(i, fr, st, pc, a, t, fn, r):
+    h = i.read_ptr(st, a[0])
+    if a[1].val is None:
+        raise Undecided("symbolic truncate")
+    _vec_set(i, st, a[0], list(i.slice_elems(st, h))[: a[1].val])
+    return _ret(i, st, pc, UNIT)
+
+
+def vec_remove(i, fr, st, pc, a, t, fn, r):
+    h = i.read_ptr(st, a[0])
+    el = list(i.slice_elems(st, h))
+    if a[1].val is None:
+        raise Undecided("symbolic remove")
+    if a[1].val >= len(el):
+        return i.panic(st, pc, "removal index out of bounds", fr, t)
+    x = el.pop(a[1].val)
+    _vec_set(i, st, a[0], el)
+    return _ret(i, st, pc, x)
+
+
+def slice_reverse(i, fr, st, pc, a, t, fn, r):
+    i.write_slice(st, a[0], list(reversed(i.slice_elems(st, a[0]))))
+    return _ret(i, st, pc, UNIT)
+
+
+def slice_fill(i, fr, st, pc, a, t, fn, r):
+    i.write_slice(st, a[0], [a[1]] * i.slice_len(st, a[0]))
+    return _ret(i, st, pc, UNIT)
+
+
+def slice_to_vec(i, fr, st, pc, a, t, fn, r):
+    cell = new_cell()
+    el = list(_seq_values(i, st, a[0]))
+    st.mem[cell] = Arr(el)
+    return _ret(i, st, pc, Ptr(cell, (), (0, len(el)), "vec"))
+
+
+def option_is(which):
+    def f(i, fr, st, pc, a, t, fn, r):
+        v = i.read_ptr(st, a[0]) if isinstance(a[0], Ptr) else a[0]
+        if not isinstance(v, Agg):
+            raise Undecided("Option/Result query on %r" % (v,))
+        return _ret(i, st, pc, wbool(v.variant == which))
+    return f
+
+
+def option_unwrap_or(i, fr, st, pc, a, t, fn, r):
+    v = a[0]
+    if not isinstance(v, Agg):
+        raise Undecided("unwrap_or on %r" % (v,))
+    return _ret(i, st, pc, v.fields[0] if v.variant == 1 else a[1])
+
+
+def result_unwrap(i, fr, st, pc, a, t, fn, r):
+    v = a[0]
+    if not isinstance(v, Agg):
+        raise Undecided("unwrap on %r" % (v,))
+    if v.variant != 0:
+        return i.panic(st, pc, "called `Result::unwrap()` on an `Err` value", fr, t)
+    return _ret(i, st, pc, v.fields[0])
+
+
+def mem_swap(i, fr, st, pc, a, t, fn, r):
+    x, y = i.read_ptr(st, a[0]), i.read_ptr(st, a[1])
+    i.write_ptr(st, a[0], y)
+    i.write_ptr(st, a[1], x)
+    return _ret(i, st, pc, UNIT)
+
+
+def mem_replace(i, fr, st, pc, a, t, fn, r):
+    x = i.read_ptr(st, a[0])
+    i.write_ptr(st, a[0], a[1])
+    return _ret(i, st, pc, x)
+
+
+def array_clone(i, fr, st, pc, a, t, fn, r):
+    return _ret(i, st, pc, i.read_ptr(st, a[0]))
+
+
+_old_iter_next2 = iter_next
+
+
+def iter_next(interp, st, it, back=False):  # noqa: F811
+    if isinstance(it, Opaque) and it.kind == "copied":
+        inner, x = iter_next(interp, st, it.data[0], back)
+        if x is not None and isinstance(x, Ptr):
+            x = interp.read_ptr(st, x)
+        return Opaque("copied", (inner,)), x
+    return _old_iter_next2(interp, st, it, back)
+
+
+TABLE.update({
+    "std::iter::Iterator::copied": it_copied,
+    "std::iter::Iterator::cloned": it_copied,
+    "<std::iter::Copied<I> as std::iter::Iterator>::next": generic_next,
+    "<std::iter::Cloned<I> as std::iter::Iterator>::next": generic_next,
+    "std::iter::Iterator::sum": it_sum_count("sum"),
+    "std::iter::Iterator::count": it_sum_count("count"),
+    "core::slice::<impl [T]>::contains": slice_contains,
+    "std::vec::Vec::<T>::with_capacity": vec_with_capacity,
+    "std::vec::Vec::<T, A>::extend_from_slice": vec_extend_from_slice,
+    "std::vec::Vec::<T, A>::pop": vec_pop,
+    "std::vec::Vec::<T, A>::clear": vec_clear,
+    "std::vec::Vec::<T, A>::truncate": vec_truncate,
+    "std::vec::Vec::<T, A>::remove": vec_remove,
+    "core::slice::<impl [T]>::reverse": slice_reverse,
+    "core::slice::<impl [T]>::fill": slice_fill,
+    "core::slice::<impl [T]>::copy_from_slice": clone_from_slice,
+    "std::slice::<impl [T]>::to_vec": slice_to_vec,
+    "std::option::Option::<T>::is_some": option_is(1),
+    "std::option::Option::<T>::is_none": option_is(0),
+    "std::result::Result::<T, E>::is_ok": option_is(0),
+    "std::result::Result::<T, E>::is_err": option_is(1),
+    "std::option::Option::<T>::unwrap_or": option_unwrap_or,
+    "std::option::Option::<T>::expect": option_unwrap,
+    "std::result::Result::<T, E>::unwrap": result_unwrap,
+    "std::mem::swap": mem_swap,
+    "std::mem::replace": mem_replace,
+    "std::array::<impl std::clone::Clone for [T; N]>::clone": array_clone,
+    "std::clone::impls::<impl std::clone::Clone for u64>::clone": clone_copy,
+    "std::clone::impls::<impl std::clone::Clone for u32>::clone": clone_copy,
+    "std::clone::impls::<impl std::clone::Clone for bool>::clone": clone_copy,
+})
+
+
+# ---------------------------------------------------------------------------------- flat_map / array map / owned iteration
+def it_flat_map(i, fr, st, pc, a, t, fn, r):
+    return _ret(i, st, pc, Opaque("flat_map", (a[0], a[1], Opaque("none", ()))))
+
+
+def array_map(i, fr, st, pc, a, t, fn, r):
+    arr, clos = a
+    if not isinstance(arr, Arr):
+        raise Undecided("array::map on %r" % (arr,))
+    work = [(st, pc, [], 0)]
+    done = []
+    while work:
+        s, p, acc, k = work.pop()
+        if k == len(arr.elems):
+            done.append(Outcome("return", s, p, Arr(acc)))
+            continue
+        for o in call_closure(i, fr, s, p, clos, [arr.elems[k]]):
+            if o.kind != "return":
+                done.append(o)
+            else:
+                work.append((o.state, o.pc, acc + [o.value], k + 1))
+    return done
+
+
+def array_into_iter(i, fr, st, pc, a, t, fn, r):
+    arr = a[0]
+    if not isinstance(arr, Arr):
+        raise Undecided("into_iter of %r" % (arr,))
+    return _ret(i, st, pc, Opaque("vals", (tuple(arr.elems), usize(0))))
+
+
+def _as_iter(v):
+    if isinstance(v, Arr):
+        return Opaque("vals", (tuple(v.elems), usize(0)))
+    return v
+
+
+_old_multi = iter_next_multi
+
+
+def iter_next_multi(i, fr, st, pc, it):  # noqa: F811
+    k = it.kind if isinstance(it, Opaque) else None
+    if k == "vals":
+        vals, pos = it.data
+        if pos.val >= len(vals):
+            return [(st, pc, it, None)], []
+        return [(st, pc, Opaque("vals", (vals, usize(pos.val + 1))), vals[pos.val])], []
+    if k == "flat_map":
+        outer, clos, cur = it.data
+        res, others = [], []
+        work = [(st, pc, outer, cur)]
+        while work:
+            s, p, out_it, cur_it = work.pop()
+            if not (isinstance(cur_it, Opaque) and cur_it.kind == "none"):
+                subs, oth = iter_next_multi(i, fr, s, p, cur_it)
+                others.extend(oth)
+                for s1, p1, cur2, item in subs:
+                    if item is not None:
+                        res.append((s1, p1, Opaque("flat_map", (out_it, clos, cur2)), item))
+                    else:
+                        work.append((s1, p1, out_it, Opaque("none", ())))
+                continue
+            subs, oth = iter_next_multi(i, fr, s, p, out_it)
+            others.extend(oth)
+            for s1, p1, out2, item in subs:
+                if item is None:
+                    res.append((s1, p1, Opaque("flat_map", (out2, clos, Opaque("none", ()))), None))
+                    continue
+                for o in call_closure(i, fr, s1, p1, clos, [item]):
+                    if o.kind != "return":
+                        others.append(o)
+                    else:
+                        work.append((o.state, o.pc, out2, _as_iter(o.value)))
+            if len(work) + len(res) > i.max_paths:
+                raise Undecided("path budget in flat_map")
+        return res, others
+    return _old_multi(i, fr, st, pc, it)
+
+
+def drain(i, fr, st, pc, it, cap=100000):
+    """all items of an iterator value -> list of (state, pc, [items]) per path"""
+    work = [(st, pc, it, [])]
+    done = []
+    while work:
+        s, p, cur, acc = work.pop()
+        subs, others = iter_next_multi(i, fr, s, p, cur)
+        if others:
+            raise Undecided("panic while draining an iterator")
+        for s1, p1, cur2, item in subs:
+            if item is None:
+                done.append((s1, p1, acc))
+            else:
+                if len(acc) > cap:
+                    raise Undecided("iterator too long")
+                work.append((s1, p1, cur2, acc + [item]))
+        if len(work) + len(done) > i.max_paths:
+            raise Undecided("path budget while draining")
+    return done
+
+
+TABLE.update({
+    "std::iter::Iterator::flat_map": it_flat_map,
+    "<std::iter::FlatMap<I, U, F> as std::iter::Iterator>::next": multi_next,
+    "std::array::<impl [T; N]>::map": array_map,
+    "std::array::iter::<impl std::iter::IntoIterator for [T; N]>::into_iter": array_into_iter,
+})
+
+
+# ---------------------------------------------------------------------------------- round-3 breadth
+def slice_chunks(exact):
+    def f(i, fr, st, pc, a, t, fn, r):
+        p, c = a
+        if c.val is None or c.val == 0:
+            raise Undecided("chunk size")
+        n = i.slice_len(st, p)
+        start = p.sl[0] if p.sl else 0
+        out = []
+        k = 0
+        while k < n:
+            ln = min(c.val, n - k)
+            if ln < c.val and exact:
+                break
+            out.append(Ptr(p.cell, p.path, (start + k, ln), "ref"))
+            k += c.val
+        return _ret(i, st, pc, Opaque("vals", (tuple(out), usize(0))))
+    return f
+
+
+def seq_lt(op):
+    def f(i, fr, st, pc, a, t, fn, r):
+        la, lb = _seq_values(i, st, a[0]), _seq_values(i, st, a[1])
+        if all(isinstance(v, W) and v.val is not None for v in la + lb):
+            ka, kb = [v.val for v in la], [v.val for v in lb]
+            return _ret(i, st, pc, wbool({"lt": ka < kb, "le": ka <= kb, "gt": ka > kb, "ge": ka >= kb}[op]))
+        if not all(isinstance(v, W) for v in la + lb):
+            raise Undecided("comparison of non-integer sequences")
+        summary = Opaque("lexcmp", (tuple(la), tuple(lb)))
+        pol = getattr(i, "cmp_policy", None)
+        if pol is not None and op == "lt":
+            k = len(i.cmp_log)
+            i.cmp_log.append(summary.data)
+            return _ret(i, st, pc, wbool(pol(k)))
+        return _ret(i, st, pc, wtop(1))
+    return f
+
+
+def rng_gen_any(i, fr, st, pc, a, t, fn, r):
+    """Rng::gen::<T>() for unsigned integers and arrays of them: fresh generator bits"""
+    args = (r or fn).get("args") or []
+    out_ty = None
+    for x in args:
+        if isinstance(x, dict) and x.get("k") in ("uint", "array"):
+            out_ty = x
+    if out_ty is None:
+        raise Undecided("Rng::gen of an unknown type")
+
+    def fresh(w):
+        k = i.rng_calls
+        i.rng_calls += 1
+        return W(w, bits=[B.atom("rng%d[%d]" % (k, b)) for b in range(w)])
+    if out_ty["k"] == "uint":
+        return _ret(i, st, pc, fresh(out_ty["w"]))
+    ln = out_ty["len"].get("v")
+    if out_ty["t"].get("k") != "uint" or ln is None:
+        raise Undecided("Rng::gen of %s" % out_ty.get("s"))
+    return _ret(i, st, pc, Arr([fresh(out_ty["t"]["w"]) for _ in range(ln)]))
+
+
+def slice_contains(i, fr, st, pc, a, t, fn, r):  # noqa: F811  (elements of ADT type compare through their PartialEq impl)
+    elems = _seq_values(i, st, a[0])
+    x = a[1]
+    xv = i.read_ptr(st, x) if isinstance(x, Ptr) else x
+    acc = wbool(False)
+    for e in elems:
+        if isinstance(e, W) and isinstance(xv, W):
+            eq = w_eq(e, xv)
+        elif isinstance(e, Agg) and isinstance(xv, Agg):
+            cands = [b for b, sty, tr in i.facts.trait_impl_methods("std::cmp::PartialEq") if sty.get("path") == e.key and b["name"] == "eq"]
+            if not cands:
+                if not e.fields and not xv.fields:
+                    eq = wbool(e.variant == xv.variant and e.key == xv.key)
+                else:
+                    raise Undecided("contains on %s" % e.key)
+            else:
+                c1, c2 = new_cell(), new_cell()
+                st.mem[c1], st.mem[c2] = e, xv
+                if cands[0]["key"] in i.opaque_fns:
+                    outs = i.opaque_fns[cands[0]["key"]](i, fr, [Ptr(c1, ()), Ptr(c2, ())], st, pc, t)
+                else:
+                    outs = i.call_mir(cands[0], cands[0]["mir"], [Ptr(c1, ()), Ptr(c2, ())], st, dict(fr.env), fr.depth + 1, pc)
+                if len(outs) != 1 or outs[0].kind != "return":
+                    raise Undecided("contains: equality splits")
+                eq = outs[0].value
+        else:
+            raise Undecided("contains on %r" % (e,))
+        acc = b_not(b_and(b_not(acc), b_not(eq)))
+    return _ret(i, st, pc, acc)
+
+
+_old_multi2 = iter_next_multi
+
+
+def iter_next_multi(i, fr, st, pc, it):  # noqa: F811
+    k = it.kind if isinstance(it, Opaque) else None
+    if k == "copied" and _has_split_adaptor(it):
+        subs, others = iter_next_multi(i, fr, st, pc, it.data[0])
+        res = []
+        for s1, p1, it2, item in subs:
+            if item is not None and isinstance(item, Ptr):
+                item = i.read_ptr(s1, item)
+            res.append((s1, p1, Opaque("copied", (it2,)), item))
+        return res, others
+    return _old_multi2(i, fr, st, pc, it)
+
+
+_old_iter_next3 = iter_next
+
+
+def iter_next(interp, st, it, back=False):  # noqa: F811
+    if isinstance(it, Opaque) and it.kind == "vals":
+        vals, pos = it.data
+        if back:
+            raise Undecided("next_back on an owned iterator")
+        if pos.val >= len(vals):
+            return it, None
+        return Opaque("vals", (vals, usize(pos.val + 1))), vals[pos.val]
+    if isinstance(it, Arr):
+        return iter_next(interp, st, Opaque("vals", (tuple(it.elems), usize(0))), back)
+    return _old_iter_next3(interp, st, it, back)
+
+
+def vec_extend(i, fr, st, pc, a, t, fn, r):  # noqa: F811
+    h = i.read_ptr(st, a[0])
+    if not isinstance(h, Ptr):
+        raise Undecided("extend on %r" % (h,))
+    src = a[1]
+    if isinstance(src, Ptr):
+        tgt = i.read_ptr(st, src) if src.sl is None else src
+        if not isinstance(tgt, Ptr):
+            raise Undecided("extend from %r" % (tgt,))
+        _vec_set(i, st, a[0], list(i.slice_elems(st, h)) + list(i.slice_elems(st, tgt)))
+        return _ret(i, st, pc, UNIT)
+    outs = []
+    for s1, p1, items in drain(i, fr, st, pc, _as_iter(src)):
+        items = [load_items(i, s1, x) for x in items]
+        h1 = i.read_ptr(s1, a[0])
+        _vec_set(i, s1, a[0], list(i.slice_elems(s1, h1)) + items)
+        outs.append(Outcome("return", s1, p1, UNIT))
+    return outs
+
+
+def it_sum_multi(i, fr, st, pc, a, t, fn, r):
+    from .absint import w_add
+    outs = []
+    for s1, p1, items in drain(i, fr, st, pc, _as_iter(a[0])):
+        acc = None
+        for x in items:
+            x = load_items(i, s1, x)
+            if not isinstance(x, W):
+                raise Undecided("sum of non-integers")
+            acc = x if acc is None else w_add(acc, x)[0]
+        if acc is None:
+            out_ty = ((r or fn).get("args") or [None])[-1]
+            w = out_ty.get("w", 64) if isinstance(out_ty, dict) else 64
+            acc = wconst(w, 0)
+        outs.append(Outcome("return", s1, p1, acc))
+    return outs
+
+
+TABLE.update({
+    "core::slice::<impl [T]>::chunks_exact_mut": slice_chunks(True),
+    "core::slice::<impl [T]>::chunks_exact": slice_chunks(True),
+    "core::slice::<impl [T]>::chunks_mut": slice_chunks(False),
+    "core::slice::<impl [T]>::chunks": slice_chunks(False),
+    "<std::slice::ChunksExactMut<'a, T> as std::iter::Iterator>::next": multi_next,
+    "<std::slice::ChunksExact<'a, T> as std::iter::Iterator>::next": multi_next,
+    "<std::slice::ChunksMut<'a, T> as std::iter::Iterator>::next": multi_next,
+    "<std::slice::Chunks<'a, T> as std::iter::Iterator>::next": multi_next,
+    "<std::array::IntoIter<T, N> as std::iter::Iterator>::next": multi_next,
+    "core::slice::cmp::<impl std::cmp::PartialOrd for [T]>::lt": seq_lt("lt"),
+    "core::slice::cmp::<impl std::cmp::PartialOrd for [T]>::le": seq_lt("le"),
+    "core::slice::cmp::<impl std::cmp::PartialOrd for [T]>::gt": seq_lt("gt"),
+    "core::slice::cmp::<impl std::cmp::PartialOrd for [T]>::ge": seq_lt("ge"),
+    "std::cmp::PartialOrd::lt": seq_lt("lt"),
+    "std::cmp::PartialOrd::le": seq_lt("le"),
+    "std::cmp::PartialOrd::gt": seq_lt("gt"),
+    "std::cmp::PartialOrd::ge": seq_lt("ge"),
+    "rand::Rng::gen": rng_gen_any,
+    "core::slice::<impl [T]>::contains": slice_contains,
+    "<std::vec::Vec<T, A> as std::iter::Extend<&'a T>>::extend": vec_extend,
+    "<std::vec::Vec<T, A> as std::iter::Extend<T>>::extend": vec_extend,
+    "std::iter::Iterator::sum": it_sum_multi,
+})
+for _k in list(TABLE):
+    if TABLE[_k] is generic_next:
+        TABLE[_k] = multi_next
 
 
 def _int_dispatch(path):
